@@ -344,7 +344,9 @@ class FortranAST:
     def check_file(self, obj_tree):
         errors = []
         tmp_list = self.scope_list[:]  # shallow copy
-        if self.none_scope is not None:
+        # The top-level scope of an INCLUDEd file is redirected to the including
+        # scope, which belongs to another file and is diagnosed there
+        if (self.none_scope is not None) and (self.none_scope.file_ast is self):
             tmp_list += [self.none_scope]
         for error in self.end_errors:
             if error[0] >= 0:
